@@ -360,6 +360,18 @@ def rule_7(ctx):
                    f'{name}({", ".join(map(repr, args))}) gives {got!r}, the reference value is {want!r}'
                    + (f' ({_ulps(float(got), float(want)):.3g} units in the last place away)' if is_num else '')
                    + ': the decimal rounding in Excel\'s direction / the correctly rounded IEEE value, for every magnitude')
+    # the multiple functions outside their domain: an Excel error value, never a Python exception
+    for name, args, want in (('FLOOR', (2.5, 0), '#DIV/0!'), ('FLOOR', (2.5, -1), '#NUM!'), ('CEILING', (2.5, -1), '#NUM!'), ('FLOOR', (-2.5, 1), -3), ('CEILING', (-2.5, 1), -2),
+                             ('FLOOR', (-2.5, -1), -2), ('CEILING', (-2.5, -1), -3), ('FLOOR', (0, 5), 0), ('CEILING', (0, 5), 0)):
+        f = V.registered(ctx, name)
+        out = V.call(ctx, name, [V.num(a) for a in args], models=models)
+        got = V.norm(out.value) if out.end == 'return' else f'<{out.end} {V.norm(out.value)!r}>'
+        if isinstance(got, tuple) and len(got) == 2 and got[0] == 'error-class':
+            from . import workbook as W
+            got = ('error', W.error_code(ctx, got[1]))
+        ok = got == ('error', want) if isinstance(want, str) else (isinstance(got, tuple) and got[0] == 'Number' and got[1] == want)
+        n += 1
+        ctx.expect(ok, f.node, f'{name}({", ".join(map(repr, args))})', f'{name}({", ".join(map(repr, args))}) gives {got!r}, expected {want!r}')
     # calls made one after the other in ONE process - also after calls that fail - give what each gives in a process of its own
     from xlsa.guards import World
     seq = [('ROUND', (2.5, 0)), ('ROUNDDOWN', (1e25, 5)), ('ROUND', (2.5, 0)), ('ROUND', (-2.5, 0)), ('ROUND', (1.25, 1)), ('INT', (-1e30,)), ('ROUND', (1.3, 0)),
@@ -379,7 +391,7 @@ def rule_7(ctx):
         ctx.expect(got == alone[(name, args)], V.registered(ctx, name).node, f'call {i + 1} of a sequence in one process: {name}{args!r}',
                    f'{name}{args!r} gives {got!r} as call {i + 1} of a sequence of rounding calls in one process ({", ".join(f"{n_}{a_!r}" for n_, a_ in seq[max(0, i - 3):i])} '
                    f'before it) and {alone[(name, args)]!r} on its own: the rounding direction of one call is no business of the next')
-    ctx.floor(90, 'reference rows')
+    ctx.floor(99, 'reference rows')
 
 
 RULES = [
